@@ -37,7 +37,7 @@ def plan(tier, seed):
         cfgs = gen.sig_orderings(1, 2)[::2] + rng.sample(gen.sig_orderings(3, 3), 9) + [gen.random_custom_cfg(rng, rng.choice((2, 3))) for _ in range(3)]
         cfgs += [{'named': '2DPGA'}, {'p': 3, 'q': 0, 'r': 0, 'opts': {'cse': False}}]
         cfgs += [{'p': 3, 'q': 0, 'r': 0, 'opts': {'graded': True}}, {'p': 2, 'q': 0, 'r': 1, 'opts': {'graded': True}}, {'p': 2, 'q': 1, 'r': 0, 'opts': {'graded': True}}]
-        per = 4
+        per = 8
         nshards = 16
     else:
         cfgs = gen.sig_orderings(1, 3) + [gen.random_custom_cfg(rng, rng.choice((2, 3))) for _ in range(20)] + gen.NAMED[:2]
